@@ -26,7 +26,13 @@ VIEW_ATTRS = {"T", "real", "imag", "flat", "w", "x", "y", "z", "vec", "H", "mT"}
 VIEW_METHODS = {"reshape", "ravel", "view", "transpose", "squeeze", "swapaxes", "tocsr", "tocsc", "tocoo", "diagonal", "__getitem__", "items", "values", "keys", "get"}
 VIEW_FUNCS = {"np.transpose", "np.asarray", "np.asanyarray", "np.atleast_1d", "np.atleast_2d", "np.ravel", "np.squeeze", "np.reshape", "np.real", "np.imag",
               "quaternion.as_float_array", "quaternion.as_quat_array", "np.swapaxes", "np.moveaxis", "np.expand_dims", "np.broadcast_to", "np.diagonal",
-              "list", "tuple", "iter", "reversed", "zip", "enumerate", "np.ascontiguousarray", "np.split", "np.array_split"}
+              "list", "tuple", "iter", "reversed", "zip", "enumerate", "np.ascontiguousarray", "np.split", "np.array_split",
+              "np.asfortranarray", "np.require", "np.asarray_chkfinite", "np.atleast_3d", "np.asmatrix", "np.nan_to_num", "np.ravel_multi_index",
+              "np.hsplit", "np.vsplit", "np.dsplit", "np.rollaxis", "np.flipud", "np.fliplr", "np.flip", "np.rot90", "np.lib.stride_tricks.as_strided",
+              "sparse.csr_matrix", "sparse.csc_matrix", "csr_matrix", "quaternion.as_quat_vector"}
+PURE_METHODS = {"copy", "get", "keys", "items", "values", "lower", "upper", "format", "join", "startswith", "endswith", "strip", "split", "count", "index",
+                "conj", "conjugate", "sum", "max", "min", "mean", "astype", "tolist", "item", "toarray", "todense", "dot", "flatten", "any", "all", "norm",
+                "reshape", "ravel", "transpose", "view", "squeeze", "tocsr", "tocsc", "tocoo", "diagonal", "swapaxes", "power", "multiply", "is_integer"}
 MUT_METHODS = {"fill", "sort", "append", "extend", "insert", "pop", "remove", "clear", "update", "setdefault", "resize", "itemset", "put", "partition", "popitem",
                "setflags", "byteswap"}
 MUT_FUNCS_FIRST_ARG = {"np.fill_diagonal", "np.copyto", "np.put", "np.place", "np.putmask", "np.put_along_axis", "np.random.shuffle"}
@@ -225,6 +231,19 @@ class Analyzer:
                     return r
                 if isinstance(e.func, ast.Attribute) and e.func.attr in VIEW_METHODS:
                     return roots(e.func.value)
+                # copy=False / order-changing conversions may hand back the very same object
+                if any(k.arg == "copy" and isinstance(k.value, ast.Constant) and k.value.value is False for k in e.keywords):
+                    r = set()
+                    for a in e.args:
+                        r |= roots(a)
+                    if isinstance(e.func, ast.Attribute):
+                        r |= roots(e.func.value)
+                    return r
+                if name and name.startswith(("np.as", "numpy.as")):
+                    r = set()
+                    for a in e.args:
+                        r |= roots(a)
+                    return r
                 return call_roots(e)
             return set()      # literals, arithmetic, comparisons, comprehensions, lambdas, f-strings: fresh objects
 
@@ -306,6 +325,11 @@ class Analyzer:
                 if isinstance(base, ast.Name) and e.args:
                     for a in e.args:
                         grow(inn, base.id, both(a))
+            if isinstance(e.func, ast.Attribute) and e.func.attr not in PURE_METHODS and e.func.attr not in MUT_METHODS:
+                gl = {r for r in roots(e.func.value) if r[0] == "global"}
+                if gl:
+                    # a method call on a module-level object (cache, generator, registry) may change it: hidden state
+                    write(gl, e, f"method .{e.func.attr}() on module-level object {ast.unparse(e.func.value)[:40]}")
             if name and (name.startswith("np.random.") or name.startswith("numpy.random.")):
                 if name.endswith("default_rng"):
                     s.rng.add("local_seeded" if (e.args or e.keywords) else "local_unseeded")
